@@ -169,6 +169,9 @@ pub fn run_case(out: &mut Out, ndev: usize, history: &[Step], probe: &Spec, tag:
             Step::Clk(d) => {
                 let t = a.w.t + d;
                 a.clk(t);
+                // the fresh world lives through the same clock (nothing else), so that what is *playing* after an
+                // Immediate request can be compared with it
+                c.apply(st);
             }
         }
         b.apply(st);
@@ -231,9 +234,22 @@ pub fn run_case(out: &mut Out, ndev: usize, history: &[Step], probe: &Spec, tag:
             }
         }
     }
-    // (2) addressed resources: A == C when both accepted
-    if verdict.is_none() && accepted && rc == "ok" && !matches!(probe, Spec::Clear) {
-        let (sa, sc) = (snapshot(&a.w, false), snapshot(&c.w, false));
+    // (2) addressed resources: A == C when both accepted. After an Immediate request on an infinite loop (or a Gain with
+    // its transition) also what is playing — segment and index as a function of the clock — must not depend on the
+    // history (Props/C02 `playing_after_probe`): a finished finite loop, a pending transition … leave nothing behind
+    let immediate_infinite = matches!(
+        probe,
+        Spec::Mod { tr: Some((0xFF, _)), rep: 0xFFFF, .. } | Spec::Foci { tr: Some((0xFF, _)), rep: 0xFFFF, .. } | Spec::GainStm { tr: Some((0xFF, _)), rep: 0xFFFF, .. } | Spec::Gain { tr: Some((0xFF, _)), .. }
+    );
+    if rc == "ok" {
+        c.apply(&Step::Clk(1_500_000));
+        c.apply(&Step::Clk(100_000_000));
+    }
+    if verdict.is_none() && accepted && rc == "ok" && !c.dead && !matches!(probe, Spec::Clear) {
+        if immediate_infinite {
+            a.out.count("probe:playing-compared-with-fresh-device");
+        }
+        let (sa, sc) = (snapshot(&a.w, immediate_infinite), snapshot(&c.w, immediate_infinite));
         'o2: for d in 0..ndev {
             for (k, r) in ALL_RES.iter().enumerate() {
                 if touched.contains(r) && sa[d][k] != sc[d][k] {
@@ -487,6 +503,22 @@ pub fn run(args: &Args) {
         &[Step::Send(Spec::Foci { n: 1, seg: 1, tr: Some((0x00, 0)), rep: 0, div: 100, ss: 21760, size: 4, seed: 2 }), Step::Clk(30_000_000)],
         &Spec::SilRate(256, 256),
         "F12-stm",
+    );
+    // a finite loop that has run to its end parks the index on the last entry; an infinite-loop write to that same
+    // (now playing) segment must play from the clock again, exactly as on a fresh device
+    run_case(
+        &mut out,
+        1,
+        &[Step::Send(Spec::Mod { seg: 1, tr: Some((0x00, 0)), rep: 0, div: 10, n: 4, seed: 2 }), Step::Clk(30_000_000)],
+        &Spec::Mod { seg: 1, tr: Some((0xFF, 0)), rep: 0xFFFF, div: 10, n: 8, seed: 3 },
+        "finished-finite-loop-then-rewrite",
+    );
+    run_case(
+        &mut out,
+        1,
+        &[Step::Send(Spec::Foci { n: 1, seg: 1, tr: Some((0x00, 0)), rep: 1, div: 100, ss: 21760, size: 4, seed: 2 }), Step::Clk(300_000_000)],
+        &Spec::GainStm { mode: 0, seg: 1, tr: Some((0xFF, 0)), rep: 0xFFFF, div: 100, size: 5, seed: 3 },
+        "finished-finite-loop-then-rewrite-stm",
     );
     defaults_case(&mut out);
 
